@@ -50,12 +50,20 @@ def run(pid):
 
     def frame(i):
         return {"rate": rnd.choice(rates), "channels": rnd.choice([1, 2, 2, 3, 8]), "bps": rnd.choice([8, 12, 16, 20, 24, 32]),
-                "len": rnd.choice([1, 5, 16, 17, 64, 192]), "seed": rnd.randint(1, 10 ** 6), "signal": rnd.choice(["walk", "noise", "sine", "const", "panfirst", "panlast", "chanmix", "anti", "wasted"])}
+                "len": rnd.choice([1, 5, 16, 17, 64, 192]), "seed": rnd.randint(1, 10 ** 6), "signal": rnd.choice(["walk", "noise", "sine", "const", "panfirst", "panlast", "chanmix", "anti", "wasted", "stereo", "stereo"])}
 
     arrangements = []
     for i, a in enumerate(arrs):
         arrangements.append({"id": i + 1, "frames": [frame(k) for k in range(nfr)], "garbage": a["garbage"], "pred": a["pred"],
                              "chunkings": [[], [1], [2], [3, 1, 7]] if i % 5 else [[], [1], [2], [3], [5], [7, 1], [64]], "log_frames": i % 20 == 0})
+    # one writer, a history of correlated stereo frames, under every option variant (ids 200000.. cycle through id % 7): state the
+    # writer keeps between frames (correlation buffers, caches) must not leak from one frame into the next
+    for k in range(21):
+        frs = []
+        for j, (ch, bps, ln, sig) in enumerate(((2, 16, 64, "stereo"), (2, 16, 192, "stereo"), (1, 8, 17, "walk"), (2, 24, 64, "stereo"), (2, 8, 20, "stereo"), (2, 16, 64, "chanmix"))):
+            frs.append({"rate": rnd.choice(rates), "channels": ch, "bps": bps, "len": ln + (k % 3), "seed": 1000 * k + j, "signal": sig})
+        arrangements.append({"id": 200000 + k, "frames": frs, "garbage": [[] for _ in range(len(frs) + 1)], "pred": [],
+                             "chunkings": [[], [3, 1, 7]], "log_frames": k < 7})
     # impl -> spec: long clean and dirty concatenations with random garbage bytes (pred unknown: <<-1>>)
     toks = ["FF", "S", "x", "x", "x"]
     for i in range(60 if t == "quick" else 8000):
